@@ -195,6 +195,12 @@ def plan(tier):
     for n in ([1, 2] if q else [1, 2]):
         jobs.append((StateToGraph(n=n, kind="stabilizer"), {}))
     jobs.append((StateToGraph(n=2, kind="clifford"), {}))
+    for n, budget in (((3, 40), (4, 50)) if q else ((4, 3600),)):
+        # budgeted, seeded-random exploration of the next sizes (every explored path is decided for all sign patterns)
+        h = StateToGraph(n=n, kind="stabilizer")
+        h.parallel = True
+        h.partial_ok = True
+        jobs.append((h, {"time_budget": budget, "chunk_paths": 4, "chunk_s": 8.0}))
     if not q:
         h = StateToGraph(n=3, kind="stabilizer")
         h.parallel = True
